@@ -1,8 +1,52 @@
-(* C10 property theorems (statements closed by [exact]); filled as the proofs land. *)
-From Tbfmm Require Import Base.Prelude Index.MortonDefs Tree.GroupDefs Tree.BuildDefs Exec.ExecDefs Exec.ExecPeriodicDefs.
+(* C10 property theorems (statements closed by [exact]).
+   Periodic mode: one contribution from every image in the repetition cube.
+   What is proved here (for every dimension d > 0 and every number of extra levels k >= 0):
+     - the reported interval has the reported number of repetitions and the closed form [-3*2^k, 3*2^k-1] ([-3,3] for k = 0);
+     - the literal call sequence of the periodic top tree (model [top_execute], compared call by call with the real
+       TbfAlgorithmPeriodicTopTree at run time), read with the image semantics [tstep] (a multipole/local is the multiset of
+       whole-box shifts it has accumulated; M2M/L2L displace by the child offset, M2L by the unwrapped relative offset times
+       the cell size), delivers to the box EXACTLY ONCE the image at every shift of the reported cube minus [-1,1]^d;
+     - the 1-D heart (window telescope [-3,2] / [-2,3]).
+   The remaining half (the 3^d adjacent copies are delivered exactly once by the wrapped lists inside the box) is in
+   Spec/GeometryPer.v when present (see the end of this file); the run-time tie is the image-aware kernel of checks/c10.py. *)
+From Tbfmm Require Import Base.Prelude Index.MortonDefs Index.ListsDefs Tree.GroupDefs Tree.BuildDefs Exec.ExecDefs Exec.ExecPeriodicDefs
+  Spec.TopTree.
+From Coq Require Import Permutation.
 Local Open Scope Z_scope.
 
 Example C10_example : map repetition_interval [-1; 0; 1; 2; 3] = [(-1, 1); (-3, 3); (-6, 5); (-12, 11); (-24, 23)]
                    /\ map nb_repetitions [-1; 0; 1; 2; 3; 4] = [3; 7; 12; 24; 48; 96].
 Proof. vm_compute. split; reflexivity. Qed.
-Print Assumptions C10_example.
+
+Theorem C10_interval_matches : forall k, 0 <= k ->
+  let (lo, hi) := repetition_interval k in
+  hi - lo + 1 = nb_repetitions k /\ (k = 0 -> lo = -3 /\ hi = 3) /\ (1 <= k -> lo = - 3 * 2 ^ k /\ hi = 3 * 2 ^ k - 1).
+Proof. exact interval_matches. Qed.
+Print Assumptions C10_interval_matches.
+
+(* the top tree delivers every far image of the reported cube exactly once, and nothing else *)
+Theorem C10_toptree_images : forall d k t, (0 < d)%nat -> 0 <= k -> height t <> 0 ->
+  let (lo, hi) := repetition_interval k in
+  Permutation (top_run d k (top_execute d k 63 t))
+              (filter (fun s => negb (forallb (fun x => Z.abs x <=? 1) s)) (cube_shifts d lo hi)).
+Proof. exact toptree_images. Qed.
+Print Assumptions C10_toptree_images.
+
+(* the right-hand side has no repetition: "exactly once" *)
+Theorem C10_cube_nodup : forall d lo hi, NoDup (cube_shifts d lo hi).
+Proof. exact NoDup_cs. Qed.
+Print Assumptions C10_cube_nodup.
+
+Theorem C10_cube_members : forall d lo hi v, In v (cube_shifts d lo hi) <-> length v = d /\ inbox lo hi v = true.
+Proof. exact In_cs. Qed.
+Print Assumptions C10_cube_members.
+
+Theorem C10_window_telescope_1d : forall k, 0 <= k ->
+  let (lo, hi) := repetition_interval k in
+  Permutation (tele1 k) (filter (fun x => negb (Z.abs x <=? 1)) (zrange lo hi)).
+Proof. exact window_telescope_1d. Qed.
+Print Assumptions C10_window_telescope_1d.
+
+(* non-vacuity: the semantics run on the real call sequence for d = 2, k = 2 gives 24^2 - 9 = 567 images *)
+Example C10_nonvacuous : length (top_run 2 2 (top_execute 2 2 63 test_tree)) = 567%nat /\ toptree_check 2 2 = true.
+Proof. vm_compute. split; reflexivity. Qed.
